@@ -8,6 +8,39 @@ HERE = os.path.dirname(os.path.dirname(os.path.abspath(__file__)))
 
 TECH = 'deterministic simulation with fault injection: '
 
+# dimensions added after the sub-agent rounds (DESIGN.md 9 and 11)
+EXTRA = {
+    'C01': '; the caller keeps one constraints dictionary and passes it '
+           'again; stale or foreign files at the detection output path',
+    'C03': '; one Size object shared between calls; rexpy_streams on one '
+           'list of lines (header skipping, output file of an earlier run); '
+           'earlier calls that fail part-way and are retried',
+    'C13': '; tag pairs over one list object / one output file',
+    'C14': '; Series and list-of-lines forms in the equivalence groups; '
+           'seeded calls that raise; returned lists edited by the caller',
+    'C18': '; input container edited by the caller after extraction; '
+           're-extraction on the same extractor',
+    'C04': '; simulated file timestamps; I/O errors while failure artefacts '
+           'are written; option lists edited in place between assertions',
+    'C10': '; I/O errors during regeneration followed by a retry; simulated '
+           'file ages',
+    'C15': '; temp directory created after construction / per test class; '
+           'missing actual files; I/O errors on artefact writes',
+    'C11': '; an earlier generation while the command was still unstable or '
+           'aborted on a later run; a second command in the same process',
+    'C12': '; the same unstable-then-repeatable history; sibling output '
+           'names; the test for a file is read off the generated script',
+    'C06': '; one constraints file rewritten between detections',
+    'C09': '; the caller\'s dictionary re-serialised after verification; '
+           'warnings escalated to errors',
+    'C17': '; invocations cut short by an I/O error and run again; the table '
+           'on standard input; alternative flag spellings',
+    'C08': '; a second writer on its own connection to a shared database '
+           'file (WAL / rollback journal); uncommitted writes; calls that '
+           'fail part-way on the connection; the table re-created with other '
+           'column types',
+}
+
 CHECKS = {
     'C03': {
         'technique': TECH + 'seeded search over rexpy call schedules, PRNG '
@@ -297,7 +330,7 @@ def main():
                               'text': c['text'],
                               'design_ref': c['design_ref']},
             'level_note': c['note'],
-            'technique': c['technique'],
+            'technique': c['technique'] + EXTRA.get(pid, ''),
         })
     na = []
     for pid in props:
